@@ -443,5 +443,10 @@ def run(ctx):
     check_batch_tasks(ctx)
     check_run_worker(ctx)
     check_tuple(ctx)
+    from .C07 import _Relabel
+    from .C10 import check_spawn
+    ctx.rule("C16-ATTACH", "attaching the per-task generators keeps the task list whole: one child per task (spawn(len(tasks))), task i extended in place by its own child "
+                           "(shared with C10-SPAWN) - pairing the tasks with a shorter sequence drops batches.")
+    check_spawn(_Relabel(ctx, {"C10-SPAWN": "C16-ATTACH"}))
     ctx.assume("Python integer // and % satisfy n = (n//k)*k + n%k with 0 <= n%k < k for k >= 1")
     ctx.assume("pool.map preserves task order (schwimmbad / multiprocessing contract)")
